@@ -23,7 +23,7 @@ props = {}
 
 # ---------------- C01 / C08: parser ----------------
 parser_quick = [J("parser","VH_holes",1), J("parser","VH_holes",2), J("parser","VH_free",1), J("parser","VH_free",2)] + \
-               [J("parser","VH_template",w) for w in (0,2,3,4,5,6,7,8,9,10,11,12,13,14,15,16,17,18)] + [J("parser","VH_reserved")]
+               [J("parser","VH_template",w) for w in (0,2,3,4,5,6,7,8,9,10,11,12,13,14,15,16,17,18,19,20)] + [J("parser","VH_reserved")]
 parser_thorough = parser_quick + [J("parser","VH_free",3), J("parser","VH_template",1), J("parser","VH_holes",3, max_instrs=6000000)]
 props["C01"] = dict(title="Accepted programs get the syntax tree the documented grammar prescribes",
   bounds="real Parse() on: operand (hole operand)* ; with 1-2 (thorough 3) tokens of arbitrary type among all 50; 1-2 (thorough 3) fully arbitrary tokens; 14 statement/expression templates with 1-3 arbitrary tokens (prefix, suffix chains, parentheses, dangling else, assignment chains, declarations, functions, for headers, literals, unary/power). Longer programs only through the composition argument of DESIGN §4",
@@ -38,8 +38,8 @@ props["C08"] = dict(title="Front end is total, accepts exactly the documented la
   only_ids="^(diagnostic-iff-flag|stdout-untouched|ungrammatical-sequence-is-rejected|grammatical-sequence-is-accepted|diagnostic-names-a-token-of-the-text|first-diagnostic-at-the-first-non-viable-token|bad-assignment-target-diagnosed-at-or-after-its-equals|progress|in-bounds|end|diag-.*|whole-flag|whole-diagnostics|front-end-error-.*|rejected-text-is-not-executed)$")
 
 # ---------------- C02 ----------------
-bin_quick = [J(I,"VH_binary",1,1,c) for c in range(8)] + [J(I,"VH_unary",1), J(I,"VH_equality",1,1), J(I,"VH_equality",0,0)]
-bin_thorough = [J(I,"VH_binary",a,b,c) for c in range(8) for (a,b) in ((0,0),(1,1),(2,1),(1,2))] + [J(I,"VH_unary",s) for s in (0,1,2)] + [J(I,"VH_equality",a,b) for (a,b) in ((0,0),(1,1),(2,2),(0,1))]
+bin_quick = [J(I,"VH_binary",1,1,c) for c in range(8)] + [J(I,"VH_unary",1), J(I,"VH_equality",1,1), J(I,"VH_equality",0,0)] + [J(I,"VH_nested",c,s2) for c in (1,4,5,6) for s2 in (0,1,2)]
+bin_thorough = [J(I,"VH_binary",a,b,c) for c in range(8) for (a,b) in ((0,0),(1,1),(2,1),(1,2))] + [J(I,"VH_unary",s) for s in (0,1,2)] + [J(I,"VH_equality",a,b) for (a,b) in ((0,0),(1,1),(2,2),(0,1))] + [J(I,"VH_nested",c,s2) for c in (0,1,3,4,5,6) for s2 in range(5)]
 props["C02"] = dict(title="Operators compute the documented result for every combination of operand values",
   bounds="evaluateBinary/evaluateUnary on two arbitrary values (every reachable host kind x every kind, unconstrained doubles / int64 payloads, texts of 1 (thorough 0-2) code points, arrays/objects of 1 scalar element) and an operator token of arbitrary type among all 50",
   assumptions=["oracle: specBinary/specUnary of DESIGN E.4", "% and ** are identities on the math.Mod/math.Pow stubs (uninterpreted)", "string operands under - * / % ** comparisons and bitwise operators, string+boolean, equality of two distinct arrays/objects/functions and integral doubles outside int64 are unspecified and not asserted", "strconv.ParseFloat on symbolic text: uninterpreted, with exact accept/reject for texts of <=2 code points"]+A_VALUES+A_COMMON,
@@ -49,19 +49,20 @@ props["C02"] = dict(title="Operators compute the documented result for every com
 props["C03"] = dict(title="Names resolve through nested block scopes; shadowing and lifetime follow blocks",
   bounds="programs of 2 (thorough 3) top-level statements, nesting depth 1 (thorough 2), over declaration / assignment / read / block / for-header / function declaration / call, every name its own symbolic code point (all collision patterns), run through the real Interpret; recursion depth <= 2",
   assumptions=["oracle: scope model of DESIGN E.6 (dynamic resolution through the closure chain, as the property's domain restriction allows)", "values are distinct concrete numbers; reads are print statements"]+A_COMMON[:2],
-  quick=[J(I,"VH_scope",1,1, loop_fuel=300), J(I,"VH_scope",2,1, loop_fuel=300), J(I,"VH_scope",3,0, loop_fuel=300)],
-  thorough=[J(I,"VH_scope",1,2, loop_fuel=300), J(I,"VH_scope",2,1, loop_fuel=300), J(I,"VH_scope",3,1, loop_fuel=300)])
+  quick=[J(I,"VH_scope",1,1, loop_fuel=300), J(I,"VH_scope",2,1, loop_fuel=300), J(I,"VH_scope",3,0, loop_fuel=300), J(I,"VH_scopeFn",0)],
+  thorough=[J(I,"VH_scope",1,2, loop_fuel=300), J(I,"VH_scope",2,1, loop_fuel=300), J(I,"VH_scope",3,1, loop_fuel=300), J(I,"VH_scope",3,0, loop_fuel=300), J(I,"VH_scopeFn",0)])
 
 # ---------------- C04 / C05 / C06 ----------------
 stmt_quick = [J(I,"VH_stmt",0,1,3, loop_fuel=400), J(I,"VH_stmt",1,1,3, loop_fuel=400)]
 stmt_thorough = stmt_quick + [J(I,"VH_stmt",0,2,2, loop_fuel=400), J(I,"VH_stmt",1,2,2, loop_fuel=400), J(I,"VH_stmt",0,1,5, loop_fuel=400), J(I,"VH_stmt",1,1,5, loop_fuel=400)]
 order_all = [J(I,"VH_order",w,0,0) for w in range(15)]
+order_faulty = [J(I,"VH_order",w,0,2) for w in (0,3,4,5,6,7,14)]
 props["C04"] = dict(title="Calls bind arguments by position, return exactly; closures own captured state",
   bounds="function bodies { S ; tail } with S every statement shape of nesting depth 1 (thorough 2) over probe, print, break, continue, return, if, if/else, while, for, block; 3 (thorough up to 5) outcomes per probe (loops of more iterations are outside); call node with 3 argument probes of every kind; closure programs of VH_closure (counter factory, two closures over one variable, recursion to depth 3, every interleaving of 3 calls)",
   assumptions=["oracle: reference semantics refExec (DESIGN E.3); a break/continue escaping a function body is unspecified"]+A_PROBE+A_COMMON[:1],
-  quick=[stmt_quick[1], J(I,"VH_order",3,0,0), J(I,"VH_closure",0), J(I,"VH_closure",1), J(I,"VH_closure",2), J(I,"VH_arity")],
+  quick=[stmt_quick[1], J(I,"VH_order",3,0,0), J(I,"VH_closure",0), J(I,"VH_closure",1), J(I,"VH_closure",2), J(I,"VH_arity"), J(I,"VH_scopeFn",0)],
   thorough=[s for s in stmt_thorough if s["args"][0]==1]+[J(I,"VH_order",3,0,0), J(I,"VH_order",3,1,0), J(I,"VH_closure",0), J(I,"VH_closure",1), J(I,"VH_closure",2), J(I,"VH_arity")],
-  only_ids="^(evaluation-sequence-as-reference|evaluations-match-reference|all-reference-events-happened|print-matches-reference|call-.*|failed-call-yields-nil|argument-.*|arguments-arrive-by-position|callee-entered-.*|closure-.*|arity-.*|recursion-.*)$")
+  only_ids="^(evaluation-sequence-as-reference|evaluations-match-reference|all-reference-events-happened|print-matches-reference|call-.*|failed-call-yields-nil|argument-.*|arguments-arrive-by-position|callee-entered-.*|closure-.*|arity-.*|recursion-.*|read-.*|diagnostic-expected-by-the-scope-model|every-expected-read-happened|scope-error-reported)$")
 props["C05"] = dict(title="Branches and loops run exactly the arms and iterations their conditions dictate",
   bounds="top-level programs { S ; tail } with S every statement shape of nesting depth 1 (thorough 2); 3 (thorough up to 5) outcomes per probe: loops of more iterations are outside the bound (cut and counted)",
   assumptions=["oracle: reference semantics refExec (DESIGN E.3)"]+A_PROBE+A_COMMON[:1],
@@ -70,8 +71,8 @@ props["C05"] = dict(title="Branches and loops run exactly the arms and iteration
 props["C06"] = dict(title="A runtime error stops the program: true cause, right line, nothing afterwards",
   bounds="as C04/C05 (every statement shape, failing probe at every position and invocation), every expression node kind with probe operands of every value kind, exit status through the real main on concrete faulty scripts; non-termination after a diagnostic is detected by loop fuel and confirmed by a native run that does not finish",
   assumptions=["'describes that operation' is checked as: the first diagnostic is the one produced for the planted fault and names its line"]+A_PROBE+A_COMMON[:1],
-  quick=stmt_quick+order_all+[J("main","VH_outcome",2), J("main","VH_outcome",3), J(I,"VH_scope",1,1, loop_fuel=300)],
-  thorough=stmt_thorough+order_all+[J(I,"VH_order",w,1,0) for w in range(15)]+[J("main","VH_outcome",2), J("main","VH_outcome",3), J(I,"VH_scope",2,1, loop_fuel=300)],
+  quick=stmt_quick+order_all+order_faulty+[J("main","VH_outcome",2), J("main","VH_outcome",3), J(I,"VH_scope",1,1, loop_fuel=300)],
+  thorough=stmt_thorough+order_all+order_faulty+[J(I,"VH_order",w,1,0) for w in range(15)]+[J(I,"VH_order",w,1,2) for w in (0,3,4,5,6,7,14)]+[J("main","VH_outcome",2), J("main","VH_outcome",3), J(I,"VH_scope",2,1, loop_fuel=300)],
   only_ids="^(no-evaluation-after-first-diagnostic|nothing-printed-after-first-diagnostic|nothing-evaluated-after-first-diagnostic|first-diagnostic-.*|stray-signal-diagnostic-names-its-line|terminates-after-diagnostic|flag-iff-diagnostic|no-operand-evaluated-after-diagnostic|callee-not-entered-after-diagnostic|nothing-printed-after-diagnostic|diagnostic-sets-flag|no-diagnostic-no-flag|runtime-error-.*|missing-diagnostic)$")
 
 # ---------------- C09 / C10 ----------------
@@ -119,8 +120,8 @@ props["C14"] = dict(title="Operands are evaluated once, left to right; logic sho
 props["C15"] = dict(title="print writes each value faithfully, newline-terminated, consistent with +",
   bounds="the real PrintStatement on every value kind (payload size 0-1, thorough 2), strings nested in arrays and objects (1-2 code points below U+0300, where NFC is the identity), and the text + splices for numbers and strings (C02's concatenation obligations)",
   assumptions=["NOT decided: that fmt's %v of a float64 is the shortest round-trip numeral with no exponent below 10^6 (fmtF is uninterpreted) and that norm.NFC is NFC (uninterpreted above U+02FF)", "containers: format-agnostic — the text must contain every element / key and value, in order"]+A_VALUES+A_COMMON[:2],
-  quick=[J(I,"VH_print",0,0), J(I,"VH_print",1,0), J(I,"VH_printNested",1,0), J(I,"VH_printNested",1,1), J(I,"VH_binary",1,1,0)],
-  thorough=[J(I,"VH_print",s,r) for s in (0,1,2) for r in (0,1)]+[J(I,"VH_printNested",n,o) for n in (1,2) for o in (0,1)]+[J(I,"VH_binary",a,b,0) for (a,b) in ((0,0),(1,1),(2,1))],
+  quick=[J(I,"VH_print",0,0), J(I,"VH_print",1,0), J(I,"VH_printNested",1,0), J(I,"VH_printNested",1,1), J(I,"VH_printNested",0,0), J(I,"VH_printShared",0), J(I,"VH_printShared",1), J(I,"VH_printShared",2), J(I,"VH_binary",1,1,0)],
+  thorough=[J(I,"VH_print",s,r) for s in (0,1,2) for r in (0,1)]+[J(I,"VH_printNested",n,o) for n in (0,1,2) for o in (0,1)]+[J(I,"VH_printShared",w) for w in range(3)]+[J(I,"VH_binary",a,b,0) for (a,b) in ((0,0),(1,1),(2,1))],
   only_ids="^(print-.*|printed-.*|nested-.*|bin-string-result|bin-result-is-string)$")
 props["C16"] = dict(title="A value behaves the same however it was produced",
   bounds="11 consumers (both operand positions of every binary operator, unary operators, condition, print alone / inside an array, array index, math built-in argument, object property round trip, delete key, self-equality) run on two host representations of the same value: string vs rune slice (1 code point; thorough 0-2), float64 vs int64, float64 vs int (|n| <= 2^53), and the result of each of 16 producers (every math built-in, length, bitwise/shift/not, addition, modulo, concatenation, run on symbolic arguments) vs the canonical float64/string of the same value; representation pairs come from the reachable-kind inventory and from what the producers actually yield, so the check is as wide as the tree's representations",
